@@ -40,7 +40,16 @@ Why(ev) ==
          ELSE "ok"
   ELSE IF ev.op = "ins" THEN
          IF IsFull THEN (IF ev.ret = 0 THEN "ok" ELSE "insert_on_full_heap_reported_success")
+         ELSE IF color[ev.e] = "G" THEN "caller_inserts_a_queued_element"
          ELSE IF ev.ret = 1 THEN "ok" ELSE "insert_with_room_reported_failure"
+  \* the caller's side of the contract (PQ's domain): histories recorded from the models' own use of the heap are judged on it too
+  ELSE IF ev.op = "upd" THEN
+         IF color[ev.e] = "B" THEN "caller_updates_a_returned_element"
+         ELSE IF color[ev.e] = "G" /\ Better(key[ev.e], ev.c) THEN "caller_update_worsens_a_queued_cost"
+         ELSE IF color[ev.e] = "W" /\ IsFull THEN "caller_updates_into_a_full_heap"
+         ELSE "ok"
+  ELSE IF ev.op = "set" THEN
+         IF color[ev.e] = "G" THEN "caller_sets_the_key_of_a_queued_element" ELSE "ok"
   ELSE "ok"
 
 FinWhy == IF FlagsWhy(Tr.fin.em, Tr.fin.fu) # "ok" THEN FlagsWhy(Tr.fin.em, Tr.fin.fu)
